@@ -237,3 +237,12 @@ package lintcmd
 //@   ensures  [spec] result == worthReporting(ig.Checks, allowedAnalyzers, len(ig.Checks))
 //@   loop 1   index n
 //@   loop 1   invariant !worthReporting(ig.Checks, allowedAnalyzers, n)
+
+//@ prop C12
+// The de-duplication in printDiagnostics merges the build names of ADJACENT problems with the
+// same descriptor, so the sort order has to keep problems with equal descriptor adjacent: the
+// build name must be the least significant key (after position, message and category).
+//@ ghost diagLess(a diagnostic, b diagnostic) bool = a.Position.Filename != b.Position.Filename ? a.Position.Filename < b.Position.Filename : (a.Position.Line != b.Position.Line ? a.Position.Line < b.Position.Line : (a.Position.Column != b.Position.Column ? a.Position.Column < b.Position.Column : (a.Message != b.Message ? a.Message < b.Message : (a.Category != b.Category ? a.Category < b.Category : a.BuildName < b.BuildName))))
+//@ func (*Command).printDiagnostics$1
+//@   requires 0 <= i && i < len(diagnostics) && 0 <= j && j < len(diagnostics)
+//@   ensures  [order] result == diagLess(diagnostics[i], diagnostics[j])
